@@ -23,6 +23,9 @@ NEUTRAL = [
     dict(name='run_script_reads_clock_only_without_timestamp', file=FN, pids=['C14', 'C15', 'C16', 'C19'],
          old="    cache = {'timestamp': int(time()), **cache_vals}",
          new="    cache = {**cache_vals}\n    if 'timestamp' not in cache:\n        cache['timestamp'] = int(time())"),
+    dict(name='run_script_reads_clock_once_more_first', file=FN, pids=['C14', 'C15', 'C16'],
+         old="    cache = {'timestamp': int(time()), **cache_vals}",
+         new="    started_ = time()\n    cache = {'timestamp': int(time()), **cache_vals}"),
     dict(name='clock_through_datetime', file=FN, pids=['C14', 'C15'],
          old="    difference = cache['timestamp'] - int(time())\n",
          new="    from datetime import datetime as _d\n    difference = cache['timestamp'] - int(_d.now().timestamp())\n"),
